@@ -1176,7 +1176,7 @@ def run_case(case, opts):
                     assign(m, roots, op[1], assigned, route)
                     # the definition of the location is now the expression that was assigned (the object itself or a
                     # structurally equal one, literal TYPES included) - not an earlier one that merely prints the same
-                    if not same_expr(ref._expr, assigned):
+                    if isinstance(assigned, BaseRef) and not same_expr(ref._expr, assigned):
                         obs["defn"] = f"{ref} was assigned {assigned} but its definition is {ref._expr!r} (literal types compared)"
             elif kind == "inplace":
                 ref = mkref(roots, op[1])
